@@ -49,7 +49,11 @@ func updatesOf(evs []logEvent) []string {
 	var out []string
 	for _, e := range evs {
 		if e.Kind == "update-enter" {
-			out = append(out, strings.Fields(e.Arg)[0])
+			name := e.Arg
+			if i := strings.LastIndex(name, " v"); i >= 0 {
+				name = name[:i] // strip the model version
+			}
+			out = append(out, name)
 		}
 	}
 	return out
@@ -774,6 +778,7 @@ func filterOnce(out *scenOut, r *rng, idx int) {
 		{"batch", func() tea.Msg {
 			return tea.BatchMsg{func() tea.Msg { atomic.AddInt32(&batchRan, 1); return nil }}
 		}, "", ""},
+		{"println", func() tea.Msg { return tea.Println("SECRET-LINE")() }, "SECRET-LINE", ""},
 		{"quit", func() tea.Msg { return tea.QuitMsg{} }, "", "nil"},
 		{"interrupt", func() tea.Msg { return tea.InterruptMsg{} }, "", "interrupted"},
 	}
@@ -866,6 +871,9 @@ func filterOnce(out *scenOut, r *rng, idx int) {
 			out.fail(finding{Property: "C16", Class: "new", What: "Send blocked while the program should be running", Input: desc, Observed: goroutineDump()})
 			return
 		}
+		if it.k.name == "println" || (it.verdict == "replace" && it.replK.name == "println") {
+			time.Sleep(25 * time.Millisecond) // a few frames: the printed line (if any) reaches the output now
+		}
 		if endAt >= 0 && i >= endAt {
 			break
 		}
@@ -916,6 +924,7 @@ func filterOnce(out *scenOut, r *rng, idx int) {
 		limit = endAt
 	}
 	wantMarks := map[string]bool{}
+	altNow := false
 	for i := 0; i < limit; i++ {
 		it := items[i]
 		eff, effMsg := it.k, it.msg
@@ -928,7 +937,13 @@ func filterOnce(out *scenOut, r *rng, idx int) {
 		if eff.name == "batch" {
 			continue // expanded, never passed to Update
 		}
-		if eff.mark != "" {
+		if eff.name == "enteraltscreen" {
+			altNow = true
+		}
+		if eff.name == "exitaltscreen" {
+			altNow = false
+		}
+		if eff.mark != "" && !(eff.name == "println" && altNow) {
 			wantMarks[eff.mark] = true
 		}
 		wantUps = append(wantUps, msgName(effMsg))
